@@ -155,6 +155,29 @@ int main(int argc, char** argv) {
                         measure(g, "residualGive", "radial", j, "-", 2, rn, [&](std::vector<Vec>& a) { FA::gr(rg, j, a[0], a[1]); }, rng);
                         measure(g, "residualTake", "radial", j, "-", 3, tn, [&](std::vector<Vec>& a) { FA::tr(rt, j, a[0], a[1], a[2]); }, rng);
                     }
+                    // direct-solver assembly: which CSR rows does a task write (values or column indices)?
+                    {
+                        DirectSolverGiveCustomLU dg(g, lc, *pb.geom, *pb.coef, dirbc, 1); DirectSolverTakeCustomLU dt(g, lc, *pb.geom, *pb.coef, dirbc, 1);
+                        auto rows_written = [&](const char* op, const char* task, int idx, const SparseMatrixCSR<double>& proto, const std::function<void(SparseMatrixCSR<double>&)>& fn) {
+                            SparseMatrixCSR<double> M = proto;
+                            for (int r = 0; r < M.rows(); r++) for (int k = 0; k < M.row_nz_size(r); k++) { M.row_nz_entry(r, k) = 0.0; M.row_nz_index(r, k) = -7; }
+                            fn(M);
+                            std::printf("FP %s %s %d - |", op, task, idx);
+                            for (int r = 0; r < M.rows(); r++) {
+                                bool w = false; for (int k = 0; k < M.row_nz_size(r); k++) w = w || M.row_nz_entry(r, k) != 0.0 || M.row_nz_index(r, k) != -7;
+                                if (w) { MultiIndex m = g.multiIndex(r); std::printf(" W mat:%d,%d", m[0], m[1]); }
+                            }
+                            std::printf(" | => CHECK ok\n");
+                        };
+                        for (int i = 0; i < g.numberSmootherCircles(); i++) {
+                            rows_written("directGive", "asmCircle", i, FA::csr(dg), [&](SparseMatrixCSR<double>& M) { FA::dgc(dg, i, M); });
+                            rows_written("directTake", "asmCircle", i, FA::csr(dt), [&](SparseMatrixCSR<double>& M) { FA::dtc(dt, i, M); });
+                        }
+                        for (int j = 0; j < g.ntheta(); j++) {
+                            rows_written("directGive", "asmRadial", j, FA::csr(dg), [&](SparseMatrixCSR<double>& M) { FA::dgr(dg, j, M); });
+                            rows_written("directTake", "asmRadial", j, FA::csr(dt), [&](SparseMatrixCSR<double>& M) { FA::dtr(dt, j, M); });
+                        }
+                    }
                     SmootherGive sg(g, lc, *pb.geom, *pb.coef, dirbc, 1); SmootherTake st(g, lc, *pb.geom, *pb.coef, dirbc, 1);
                     smoother_tasks("smootherGive", sg, g, rng, true);
                     smoother_tasks("smootherTake", st, g, rng, false);
